@@ -160,6 +160,32 @@ hx_tmpl(json_t *args, const char *key)
     return json_deep_copy(t);
 }
 
+/* per-key templates (an array): after the call every template must be referenced exactly by the caller's array
+ * and by the places of `owner`'s list `plural` that hold it (the library adds the completed template itself to the
+ * object); anything else means the library dropped or kept a reference it does not own (C09) */
+bool
+hx_tmpl_refs_ok(json_t *tmpl, json_t *owner, const char *plural)
+{
+    size_t i, j;
+    json_t *e, *h;
+    if (!json_is_array(tmpl))
+        return true;
+    json_array_foreach(tmpl, i, e) {
+        size_t holders = 1;
+        json_t *list = json_object_get(owner, plural);
+        if (!json_is_object(e))       /* true / false / null are immortal singletons; other scalars are refused as templates */
+            continue;
+        if (owner == e)
+            holders++;
+        json_array_foreach(list, j, h)
+            if (h == e)
+                holders++;
+        if (e->refcount != holders)
+            return false;
+    }
+    return true;
+}
+
 static const op_t *const tables[] = {
     ops_tables, ops_b64, ops_io, ops_jwk, ops_misc, ops_jws, ops_jwe, ops_api, ops_cfg, ops_glob,
 #ifdef HX_ALLOC
